@@ -408,12 +408,27 @@ fn obs_of(s: &Sentence) -> Value {
     let toks = proj_tokens(s, false);
     let ok = st["tags"].is_array() && toks.is_array() && st["scores"].is_array()
         && toks.as_array().map(|a| a.iter().all(|t| t.is_object() && t["surf"].is_array() && t["tags"].is_array())).unwrap_or(false);
-    if ok {
+    // the two writers, each into a dirty buffer
+    let line = |f: &dyn Fn(&mut String)| {
+        let r = catch_unwind(AssertUnwindSafe(|| {
+            let mut b = String::from("junk");
+            f(&mut b);
+            b
+        }));
+        match r {
+            Ok(b) if std::str::from_utf8(b.as_bytes()).is_ok() => Some(str_to_cps(&b)),
+            _ => None,
+        }
+    };
+    let wtok = line(&|b| s.write_tokenized_text(b));
+    let wpart = line(&|b| s.write_partial_annotation_text(b));
+    if ok && wtok.is_some() && wpart.is_some() {
         json!({"sane": true, "text": st["text"], "types": st["types"], "bnd": st["bnd"], "ntags": st["ntags"],
-               "tags": st["tags"], "scores": st["scores"], "tokens": toks})
+               "tags": st["tags"], "scores": st["scores"], "tokens": toks, "wtok": wtok.unwrap(), "wpart": wpart.unwrap()})
     } else {
         json!({"sane": false, "text": st["text"], "types": st["types"], "bnd": st["bnd"], "ntags": st["ntags"],
-               "tags": [], "scores": [], "tokens": [], "raw": {"state": st, "tokens": toks}})
+               "tags": [], "scores": [], "tokens": [], "wtok": [], "wpart": [],
+               "raw": {"state": st, "tokens": toks, "wtok_ok": wtok.is_some(), "wpart_ok": wpart.is_some()}})
     }
 }
 
@@ -581,7 +596,16 @@ pub fn record_histories(n: usize, seed: u64, out: &mut dyn Write) {
             let name = op["op"].as_str().unwrap().to_string();
             let text = cps_to_string(&op["s"]);
             let r = catch_unwind(AssertUnwindSafe(|| match name.as_str() {
-                "up_raw" => if s.update_raw(text.clone()).is_ok() { "ok" } else { "err" },
+                "up_raw" => {
+                    // owned or borrowed text (decided by the text itself, so that the run stays a function of the seed)
+                    let ok = if text.len() % 2 == 0 {
+                        let b: &'static str = Box::leak(text.clone().into_boxed_str());
+                        s.update_raw(b).is_ok()
+                    } else {
+                        s.update_raw(text.clone()).is_ok()
+                    };
+                    if ok { "ok" } else { "err" }
+                }
                 "up_tok" => if s.update_tokenized(&text).is_ok() { "ok" } else { "err" },
                 "up_part" => if s.update_partial_annotation(&text).is_ok() { "ok" } else { "err" },
                 "reset_tags" => { s.reset_tags(op["k"].as_u64().unwrap() as usize); "ok" }
@@ -596,7 +620,7 @@ pub fn record_histories(n: usize, seed: u64, out: &mut dyn Write) {
                 _ => { crate::ops::make_filter(op["f"].as_str().unwrap(), None).filter(&mut s); "ok" }
             }));
             let res = match r { Ok(x) => x, Err(_) => "panic" };
-            let obs = catch_unwind(AssertUnwindSafe(|| obs_of(&s))).unwrap_or(json!({"sane": false, "text": [], "types": [], "bnd": [], "ntags": 0, "tags": [], "scores": [], "tokens": []}));
+            let obs = catch_unwind(AssertUnwindSafe(|| obs_of(&s))).unwrap_or(json!({"sane": false, "text": [], "types": [], "bnd": [], "ntags": 0, "tags": [], "scores": [], "tokens": [], "wtok": [], "wpart": []}));
             writeln!(out, "{}", json!({"id": id, "ev": "op", "op": op, "res": res, "obs": obs})).unwrap();
             id += 1;
         }
